@@ -317,6 +317,9 @@ type wgen struct {
 	wide    bool // allow a few very wide collections
 	budget  int
 	pBig    float64 // probability of boundary-size integers
+	// pointers to structs handed out so far in this value, by type: one object may be reachable
+	// under several paths (the walker visits it under each of them)
+	shared map[reflect.Type][]reflect.Value
 }
 
 func (g *wgen) scalarType() reflect.Type { return pick(g.r, scalarTypes) }
@@ -573,10 +576,20 @@ func (g *wgen) fill(v reflect.Value, depth int) {
 			v.Set(m)
 		}
 	case reflect.Ptr:
+		if v.Type().Elem().Kind() == reflect.Struct && len(g.shared[v.Type()]) > 0 && chance(r, 0.12) {
+			v.Set(pick(r, g.shared[v.Type()])) // the same object again, under another path
+			return
+		}
 		if chance(r, 0.75) {
 			p := reflect.New(v.Type().Elem())
 			g.fill(p.Elem(), depth+1)
 			v.Set(p)
+			if p.Elem().Kind() == reflect.Struct && v.Type().Elem() != reflect.TypeOf(Node{}) {
+				if g.shared == nil {
+					g.shared = map[reflect.Type][]reflect.Value{}
+				}
+				g.shared[v.Type()] = append(g.shared[v.Type()], p)
+			}
 		}
 	case reflect.Struct:
 		if v.Type() == timeType {
@@ -922,12 +935,30 @@ func walkerCase(r *rand.Rand, p walkProfile) Case {
 			// one entry per type (Go map keyed by the pointer value: keep the first)
 			dup := false
 			for k := range call.typed {
-				if reflect.TypeOf(k).Elem() == st {
+				kt := reflect.TypeOf(k)
+				for kt.Kind() == reflect.Ptr {
+					kt = kt.Elem()
+				}
+				if kt == st {
 					dup = true
 				}
 			}
 			if !dup {
-				call.typed[reflect.New(st).Interface()] = rm
+				// the key object: a pointer to the type, a nil pointer to it, a pointer to a pointer, or a value
+				var keyObj interface{} = reflect.New(st).Interface()
+				switch r.IntN(10) {
+				case 0:
+					keyObj = reflect.Zero(reflect.PointerTo(st)).Interface() // (*T)(nil)
+				case 1:
+					pp := reflect.New(reflect.PointerTo(st))
+					pp.Elem().Set(reflect.New(st))
+					keyObj = pp.Interface() // **T
+				case 2:
+					if st.Comparable() { // the key object is also the key of a Go map here
+						keyObj = reflect.New(st).Elem().Interface() // T{}
+					}
+				}
+				call.typed[keyObj] = rm
 				if chance(r, 0.25) {
 					// an earlier rule set for the same type, replaced by this one
 					first := valid.RM{}
